@@ -31,7 +31,7 @@ func runC15(opt *Options) int {
 	}
 	lr := &laRun{
 		Opt:  opt,
-		Pkgs: []string{"generator", "config", "."},
+		Pkgs: []string{"generator", "config", "comments", "."},
 		Kernels: []layera.Kernel{
 			kernelFileManager(),
 			{Name: "K8.outputpackage", Pkg: "config", Harness: "VerifHarness_C15_OutputPackage", Unwind: 64, Stub: []string{"github.com/jmattheis/goverter/method.Parse"}, SetInts: ints},
@@ -40,6 +40,7 @@ func runC15(opt *Options) int {
 			{Name: "K8.getpackages", Pkg: "config", Harness: "VerifHarness_C15_GetPackages", Unwind: 64, NoMapPermute: true},
 			{Name: "K8.resolvepackage", Pkg: "config", Harness: "VerifHarness_C15_ResolvePackage", Unwind: 64, E2E: "c15"},
 			{Name: "K8.resolvetarget", Pkg: "config", Harness: "VerifHarness_C15_ResolveTarget", Unwind: 64},
+			{Name: "K7.filescan", Pkg: "comments", Harness: "VerifHarness_C19_ParseDocsFiles", Unwind: 64, E2E: "c15"},
 			kernelGenerateConverters("c15"),
 		},
 		Funcs:     []string{"generator.(*fileManager).Get", "generator.getOutputDir", "config.(*ConverterConfig).PackageID", "config.parseConverterLine (output:package, output:file arms)", "parse.File", "parse.String", "config.defaultOutputFile", "config.getPackages", "config.registerConverterLines", "config.registerMethodLines", "config.resolveOutputPackage", "config.resolvePackage", "pkgload.New", "pkgload.(*PackageLoader).load/GetUncheckedPkg", "goverter.GenerateConverters", "goverter.generateConvertersRaw", "goverter.writeFiles"},
@@ -72,11 +73,13 @@ func runC16(opt *Options) int {
 func runC17(opt *Options) int {
 	lr := &laRun{
 		Opt:  opt,
-		Pkgs: []string{"generator", "cli", "config", "."},
+		Pkgs: []string{"generator", "cli", "config", "comments", "."},
 		Kernels: []layera.Kernel{
 			kernelGenerateConverters("c17"),
 			{Name: "K8.generate", Pkg: "generator", Harness: "VerifHarness_C17_Generate", Unwind: 16, E2E: "c17", Stub: []string{"github.com/jmattheis/goverter/generator.generateConverter"}},
 			{Name: "K8.run", Pkg: "cli", Harness: "VerifHarness_C17_Run", Unwind: 16, E2E: "c17", Stub: []string{"github.com/jmattheis/goverter/cli.Parse", "github.com/jmattheis/goverter.GenerateConverters"}},
+			{Name: "K8.setup", Pkg: "generator", Harness: "VerifHarness_C17_Setup", Unwind: 16},
+			{Name: "K7.nomarker", Pkg: "comments", Harness: "VerifHarness_C19_NoMarker", Unwind: 64},
 			{Name: "K8.extendfault", Pkg: "config", Harness: "VerifHarness_C17_ExtendFault", Unwind: 24, E2E: "c17", Stub: []string{"(*github.com/jmattheis/goverter/pkgload.PackageLoader).GetMatching"}},
 		},
 		Funcs:     []string{"goverter.GenerateConverters", "goverter.generateConvertersRaw", "goverter.writeFiles", "generator.Generate", "generator.(*fileManager).Get", "generator.(*fileManager).renderFiles", "cli.Run", "config.parseConverterLine (extend arm)"},
